@@ -322,6 +322,45 @@ func (m *mergeInterp) exec(list []ast.Stmt, vars map[string]sval, top bool, path
 			if err != nil || ret {
 				return v, ret, err
 			}
+		case *ast.SwitchStmt:
+			// switch { case c1: ... case c2: ... default: ... } - the first clause whose condition holds
+			if s.Init != nil || s.Tag != nil {
+				return sval{}, false, fmt.Errorf("unrecognised switch statement in %s", m.fn)
+			}
+			fs := map[string]bool{}
+			for k := range pathFields {
+				fs[k] = true
+			}
+			var chosen []ast.Stmt
+			var deflt []ast.Stmt
+			found := false
+			for _, cl := range s.Body.List {
+				cc := cl.(*ast.CaseClause)
+				if cc.List == nil {
+					deflt = cc.Body
+					continue
+				}
+				if found {
+					continue
+				}
+				for _, ce := range cc.List {
+					c, err := m.cond(ce, vars, top, fs)
+					if err != nil {
+						return sval{}, false, err
+					}
+					if c {
+						chosen, found = cc.Body, true
+						break
+					}
+				}
+			}
+			if !found {
+				chosen = deflt
+			}
+			v, ret, err := m.exec(chosen, vars, top, fs)
+			if err != nil || ret {
+				return v, ret, err
+			}
 		case *ast.ReturnStmt:
 			if top {
 				return sval{}, true, nil
